@@ -7,8 +7,10 @@ import (
 	"os"
 	"path/filepath"
 	"regexp"
+	"runtime"
 	"runtime/debug"
 	"sort"
+	"strconv"
 	"strings"
 	"time"
 )
@@ -171,6 +173,7 @@ func mainCheck(args []string) int {
 	var jobs []solveJob
 	var execs []*FnExec
 	trusted := map[string]bool{}
+	var partial []string
 	var subsetFailures []*Obl
 	type fnres struct {
 		x   *FnExec
@@ -243,6 +246,23 @@ func mainCheck(args []string) int {
 			}
 			x.obls = append(x.obls, lo)
 		}
+		if only := x.top.Opts["only"]; only != "" {
+			// `opt only=ASSERT,POST`: a PARTIAL contract - only obligations of the listed kinds are generated for this
+			// function (plus the vacuity covers); its safety obligations (index, nil, ...) are NOT claimed.  Recorded as an
+			// assumption in the evidence.
+			keep := map[string]bool{}
+			for _, k := range strings.Split(only, ",") {
+				keep[strings.TrimSpace(k)] = true
+			}
+			var kept []*Obl
+			for _, o := range x.obls {
+				if o.Cover || keep[o.Kind] {
+					kept = append(kept, o)
+				}
+			}
+			x.obls = kept
+			partial = append(partial, shortKey(x.top.Key)+" (only "+only+")")
+		}
 		for _, o := range x.obls {
 			jobs = append(jobs, solveJob{x, o, smtDir})
 		}
@@ -252,8 +272,9 @@ func mainCheck(args []string) int {
 	}
 	vcMs := time.Since(start).Milliseconds() - loadMs
 	solveAll(jobs, timeout, 10, *tier == "thorough" && os.Getenv("VERIF_AGREE") != "")
-	// Robustness against a loaded machine: an obligation that came back undecided (timeout / unknown, no model) is
-	// tried once more, alone-ish (2 at a time) and with three times the budget, before it is reported.  A refutation
+	// Robustness against a loaded machine (1-minute load average above 60% of the cores when the first pass ends):
+	// an obligation that came back undecided (timeout / unknown, no model) is
+	// tried once more (at most 6 of them, 3 at a time) with twice the budget, before it is reported.  A refutation
 	// (sat) is never retried.  Costs time only when something is about to be reported.
 	var retry []solveJob
 	for _, j := range jobs {
@@ -261,11 +282,11 @@ func mainCheck(args []string) int {
 			retry = append(retry, j)
 		}
 	}
-	if len(retry) > 0 && len(retry) <= 12 && os.Getenv("VERIF_NO_RETRY") == "" {
+	if len(retry) > 0 && len(retry) <= 6 && os.Getenv("VERIF_NO_RETRY") == "" && machineLoaded() {
 		for _, j := range retry {
 			j.o.Result, j.o.Solver, j.o.Model = "", "", ""
 		}
-		solveAll(retry, 3*timeout, 2, false)
+		solveAll(retry, 2*timeout, 3, false)
 		for _, j := range retry {
 			if j.o.Result == "unsat" {
 				j.o.Solver += " [retry]"
@@ -449,6 +470,9 @@ func mainCheck(args []string) int {
 				assumptions = append(assumptions, "machine arithmetic treated as mathematical (overflow obligations waived) in "+shortKey(x.top.Key))
 			}
 		}
+		for _, pf := range partial {
+			assumptions = append(assumptions, "PARTIAL contract, safety obligations (index, nil, bounds, callee preconditions) not generated: "+pf)
+		}
 		if *prop == "C11" {
 			for _, n := range e.genNotes {
 				assumptions = append(assumptions, "not covered by the generated pairing lemmas: "+n)
@@ -486,4 +510,21 @@ func mainCheck(args []string) int {
 		return 1
 	}
 	return 0
+}
+
+// machineLoaded: is the 1-minute load average above 60% of the number of cores?  (Then a timeout says little.)
+func machineLoaded() bool {
+	data, err := os.ReadFile("/proc/loadavg")
+	if err != nil {
+		return true
+	}
+	f := strings.Fields(string(data))
+	if len(f) == 0 {
+		return true
+	}
+	l, err := strconv.ParseFloat(f[0], 64)
+	if err != nil {
+		return true
+	}
+	return l > 0.6*float64(runtime.NumCPU())
 }
